@@ -145,7 +145,21 @@ func main() {
 			argsOk, detail = false, "predicted "+run.Canon(pred)+" got "+run.Canon(am)
 		}
 	}
-	emit("StageBegin", "job", key, "known", inv != nil, "argsOk", argsOk, "detail", detail, "md", rel)
+	// what else the job is handed besides its arguments: a join reads the chunk definitions
+	cdefs := ""
+	if jk == "join" {
+		if b, err := os.ReadFile(path.Join(md, "_chunk_defs")); err == nil {
+			var v interface{}
+			if json.Unmarshal(b, &v) == nil {
+				cdefs = run.Canon(v)
+			} else {
+				cdefs = "unreadable: " + string(b)
+			}
+		} else {
+			cdefs = "missing"
+		}
+	}
+	emit("StageBegin", "job", key, "known", inv != nil, "argsOk", argsOk, "detail", detail, "md", rel, "cdefs", cdefs)
 	if tb.Delay > 0 {
 		time.Sleep(time.Duration(tb.Delay) * time.Millisecond)
 	}
